@@ -408,10 +408,21 @@ class Check:
         os.makedirs(os.path.join(VERIF, "evidence"), exist_ok=True)
         with open(os.path.join(VERIF, "evidence", self.pid + ".json"), "w") as f:
             json.dump(ev, f, indent=1, default=str)
-        for key, summ in self.known:
-            print("KNOWN-FINDING: property=%s %s %s" % (self.pid, key, summ), flush=True)
+        # every open finding listed for this property is printed on every run (the file is never
+        # written here); whether this run reproduced it is stated, since some are timing-dependent
+        seen = {k for k, _ in self.known}
+        for kf in load_known_findings():
+            if kf.get("property") == self.pid and kf.get("status") == "open":
+                tag = "reproduced in this run" if kf.get("matcher") in seen else "not reproduced in this run"
+                print("KNOWN-FINDING: property=%s %s: %s [%s]" % (self.pid, kf.get("matcher"), kf.get("summary", ""), tag), flush=True)
         # at most a handful of VIOLATION lines; first one is the most shrunk
-        for path, suffix in self.violations[:5]:
+        # violations that come with a failing input first; a broken tie is then explained by them
+        self.violations.sort(key=lambda v: v[1] != "")
+        if any(v[1] == "" for v in self.violations):
+            shown = [v for v in self.violations if v[1] == ""]
+        else:
+            shown = self.violations
+        for path, suffix in shown[:5]:
             print("VIOLATION property=%s replay=%s%s" % (self.pid, path, suffix), flush=True)
         if self.violations:
             return 1
